@@ -83,8 +83,9 @@ def check_c20(tier):
     tevents, mismatches, nitems = session.thread_run(tcs, tlimit, nthreads, reps)
     tverdicts, tsummary, tst = session.validate(tevents)
     recs += _records(tevents, tverdicts, lambda v: v != "operand-modified")
-    hmism, hitems, hcalls = session.thread_hammer(tcs, nthreads, 3 if tier == "quick" else 12, with_poisoned=(tier != "quick"))
-    for m in mismatches + hmism:
+    hmism, hitems, hcalls = session.thread_hammer(tcs, nthreads, 2 if tier == "quick" else 12, with_poisoned=(tier != "quick"))
+    omism, oitems = session.order_run(tcs)
+    for m in mismatches + hmism + omism:
         recs.append({"kind": "thread-result-differs" if "what" not in m else "process-state-leaked-under-threads", "op": m.get("call", "?"),
                      "tag": "threads", "backend": m.get("backend"), "detail": m})
     v = common.Verdicts("C20")
@@ -99,7 +100,7 @@ def check_c20(tier):
            "model_checking_runs": mc, "negative_configuration": "SharedErrState = TRUE violates GlobalsRestored (as it must)",
            "session_events": len(events), "session_events_that_raised": raised, "priors": [p[0] for p in session.PRIORS],
            "modes": ["unregistered", "registered (register_awkward called twice first)"],
-           "thread_events": len(tevents), "threads": nthreads, "thread_call_list": nitems, "thread_repetitions": reps, "simultaneous_call_items": hitems, "simultaneous_calls": hcalls,
+           "thread_events": len(tevents), "threads": nthreads, "thread_call_list": nitems, "thread_repetitions": reps, "order_independence_items": oitems, "simultaneous_call_items": hitems, "simultaneous_calls": hcalls,
            "thread_result_mismatches": len(mismatches),
            "evaluations": len(events) + len(tevents), "distinct_nontrivial": len(events) + len(tevents),
            "rule": ("(a) TLC explores every interleaving of Enter/Exit/Register of spec/Globals.tla for 2-4 threads under each prior error mode "
